@@ -344,6 +344,8 @@ def drive_c04(ctx):
     from pamqp import heartbeat, header
     rec, rng = ctx.rec, ctx.rng
     P = ['C04']
+    if ctx.shard in (9, 10, 11):       # FIRST in this interpreter: a refused marshal as the first use of each class, then a valid one
+        class_failure_pairs(ctx, P, decode_side=False)
     if ctx.shard == 2:
         ambient_decimal_context(ctx, P)
     for f in small_frames(ctx):
@@ -377,6 +379,14 @@ def drive_c04(ctx):
         under_legacy(ctx, P)
     if ctx.shard == 6:
         colliding_long_keys(ctx, P)
+    if ctx.shard == 7:
+        marshal_failure_then(ctx, P)
+        decode_mutate_encode(ctx, P)
+    if ctx.shard == 8:
+        from pamqp import body as _b04
+        for n_ in (131063, 131064, 131065, 131072, 200000):       # whatever its size, one ContentBody is ONE frame
+            rec.add('RoundTrip', P, nt=True, label='large body', **actions.roundtrip(_b04.ContentBody(bytes((i * 3 + n_) % 256 for i in range(509)) * (n_ // 509) + b'z' * (n_ % 509)), 9))
+
     for _ in range(200 if ctx.quick else 5000):
         ty = rng.choice(['octet', 'short', 'long', 'longlong', 'shortstr', 'longstr', 'table', 'timestamp'])
         if ty == 'timestamp':
@@ -426,6 +436,20 @@ def drive_c14(ctx):
     if ctx.shard != 0:
         return
     items = list(commands.INDEX_MAPPING.items())
+    # questions a class must REFUSE, asked before anything else: every class is asked for the wire type, the item and the
+    # membership of every argument name of the OTHER classes (what a refusal leaves behind must not answer later questions)
+    allnames = sorted({a for _, c in items if isinstance(c, type) for a in getattr(c, '__slots__', []) if isinstance(a, str)})
+    for _, c in items:
+        if not isinstance(c, type):
+            continue
+        own = set(x for x in getattr(c, '__slots__', []) if isinstance(x, str))
+        for a in allnames:
+            if a in own:
+                continue
+            try:
+                c.amqp_type(a)
+            except Exception:  # noqa
+                pass
     rec.add('MappingKeys', P, nt=True, keys=sorted(as_int(k) for k, _ in items), n=len(items))
     for key, cls in items:
         slots = [x if isinstance(x, str) else repr(x) for x in cls.__slots__]      # (whatever the catalogue holds is reported, never assumed)
@@ -783,6 +807,18 @@ def drive_c20(ctx):
         ev = actions.peek(f, ch, tail)
         if ev is not None:
             rec.add('Peek', P, nt=True, **ev)
+    if ctx.shard == 3:
+        marshal_failure_then(ctx, P, action='Peek')
+    if ctx.shard == 2:
+        import struct as _st20
+        # the peek reads 7 bytes and nothing else: buffers that continue past the announced payload, whatever stands where a
+        # frame-end octet would be
+        for t in (0, 1, 2, 3, 8, 255):
+            for size in (0, 1, 2, 5):
+                for endb in (0x00, 0xCD, 0xCE, 0xFF):
+                    for extra in (b'', b'\xce', b'more'):
+                        b = _st20.pack('>BHI', t, 7, size) + b'p' * size + bytes([endb]) + extra
+                        rec.add('FrameParts', P, nt=True, label='end-octet-in-view', **actions.frame_parts(b))
     if ctx.shard == 4:
         from pamqp import heartbeat as _hb2
         for ch in (0, 1, 5, 255, 256, 65535):       # a heartbeat marshalled "on" any channel is still a frame the decoder takes
@@ -1209,6 +1245,22 @@ def fuzz_inputs(ctx, scale):
             size = (1 << bits) + r
             for t in (1, 2, 3):
                 yield 'size-trunc', struct.pack('>BHI', t, 1, size) + b'X' * r + b'\xce' * 3
+    # 7f. volume of DISTINCT names in one frame (beyond any plausible cache size), and names that are bait for a backtracking
+    #     pattern: a long run of name characters, optionally broken by separators, ended by one character that is not one
+    for nkeys in ((300, 1100) if ctx.quick else (300, 1100, 2600)):
+        idx += 1
+        if mine(ctx, idx):
+            yield 'many-keys-%d' % nkeys, table_frame(b''.join(wiregen.short_str('k%05d-%d' % (i, nkeys)) + b'V' for i in range(nkeys)))
+    for run in (24, 31, 40, 62, 120, 250):
+        for tail_ in (' ', '!', '\u00e9', '\n', ''):
+            idx += 1
+            if not mine(ctx, idx):
+                continue
+            for name in ('x-' + 'authentication_failure_close_'[:29] * 9, 'a' * 300, '-'.join(['ab1'] * 90), 'a_' * 150, 'x.' + 'A9$#_' * 60):
+                key = (name[:run] + tail_)[:255]
+                yield 'bait-key', table_frame(wiregen.short_str(key) + b'V')
+                yield 'bait-shortstr', wiregen.envelope(1, 1, struct.pack('>HH', 60, 21) + wiregen.short_str(key))
+                yield 'bait-exchange', wiregen.envelope(1, 1, struct.pack('>HH', 40, 10) + b'\x00\x00' + wiregen.short_str(key) + wiregen.short_str('direct') + b'\x00' + struct.pack('>I', 0))
     # 8. random byte strings, random payloads in valid envelopes
     for _ in range(150 * scale):
         n = rng.choice([0, 1, 6, 7, 8, 9, 12, rng.randint(0, 64), rng.randint(0, 400)])
@@ -1533,6 +1585,9 @@ def drive_c12(ctx):
     if ctx.shard == 6:
         under_legacy(ctx, P)
         colliding_long_keys(ctx, P)
+    if ctx.shard == 7:
+        decode_mutate_encode(ctx, P)
+        marshal_failure_then(ctx, P)
 
 
 # ---------------------------------------------------------------------------
@@ -1675,6 +1730,9 @@ def drive_c16(ctx):
         exotic_but_accepted(ctx, ['C16'])
     if ctx.shard == 4:
         under_legacy(ctx, ['C16'])
+    if ctx.shard == 5:
+        decode_mutate_encode(ctx, ['C16'])
+        marshal_failure_then(ctx, ['C16'])
     if ctx.shard == 1:
         ambient_decimal_context(ctx, ['C16'])
     scheds = ctx.gen.get('schedules')
@@ -1861,6 +1919,15 @@ def generic_storm(ctx, frames=()):
         try:
             n_, ch_, fo = actions.unmarshal3(wiregen.rand_wire_frame(rng, lenient=True))
             frame.marshal(fo, ch_)
+        except Exception:  # noqa
+            pass
+    # volume: more DISTINCT names, strings, channels and values than any cache or intern table is likely to hold
+    for i in range(1500):
+        nm = 'vol-%d-%s' % (i, 'x' * (i % 7))
+        try:
+            b_ = frame.marshal(commands.Queue.Declare(queue='q%d' % i, arguments={nm: i, 'c': nm}), i % 65536)
+            actions.unmarshal3(b_)
+            frame.marshal(commands.Basic.Consume(queue='q', consumer_tag=nm), (i * 37) % 65536)
         except Exception:  # noqa
             pass
     # every one of the 64 classes used once in THIS interpreter (class-level state shared between classes -- anything keyed
@@ -2387,6 +2454,92 @@ def colliding_long_keys(ctx, props):
         rec.add('EncodeValue', props, nt=True, label='colliding-long-keys', **actions.encode_value([t], 'array'))
     from pamqp import commands
     rec.add('RoundTrip', props, nt=True, label='colliding-long-keys', **actions.roundtrip(commands.Queue.Declare(queue='q', arguments=cases[0]), 1))
+
+
+def decode_mutate_encode(ctx, props, values=True):
+    """objects and tables that came OUT of the decoder are the caller's to change: a key that sorts before / between / after
+    the existing ones is inserted in place (at every level), an element is replaced, and the object is encoded again --
+    the bytes are the reference's for the NEW contents, whatever the decoder remembered about the old ones"""
+    from pamqp import commands, decode as _dec, encode as _enc, frame, header
+    rec = ctx.rec
+    xdeath = {'x-death': [{'count': 1, 'queue': 'q', 'reason': 'expired', 'time': gen.rand_datetime_in_range(ctx.rng)}],
+              'x-first-death-queue': 'q', 'x-death-count': 3}
+    frames = [commands.Queue.Declare(queue='q', arguments={'x-max-length': 10, 'x-message-ttl': 60000}),
+              commands.Basic.Consume(queue='q', arguments={'x-priority': 5}),
+              commands.Connection.StartOk(client_properties={'product': 'p', 'capabilities': {'basic.nack': True, 'publisher_confirms': True}}),
+              header.ContentHeader(0, 3, commands.Basic.Properties(headers=dict(xdeath), priority=1)),
+              header.ContentHeader(0, 3, commands.Basic.Properties(headers={'m': 1, 'z': {'b': 1, 'y': 2}}))]
+
+    def poke(t):
+        t['aaa-first'] = 1
+        t['n-middle'] = 'mid'
+        t['zzz-last'] = None
+        for v in list(t.values()):
+            if isinstance(v, dict):
+                v['a0'] = 0
+                v['zz'] = 9
+            elif isinstance(v, list):
+                for x in v:
+                    if isinstance(x, dict):
+                        x['a0'] = 0
+                        x['zz'] = 9
+    for f in frames:
+        try:
+            n_, ch_, g = actions.unmarshal3(frame.marshal(f, 1))
+        except Exception:  # noqa
+            continue
+        rec.add('RoundTrip', props, nt=True, label='decoded-unchanged', **actions.roundtrip(g, 1))
+        tbl = g.properties.headers if hasattr(g, 'properties') else next((getattr(g, a) for a in type(g).__slots__ if isinstance(getattr(g, a, None), dict)), None)
+        if isinstance(tbl, dict):
+            poke(tbl)
+            rec.add('RoundTrip', props, nt=True, label='decoded-then-changed', **actions.roundtrip(g, 1))
+            del tbl['aaa-first']
+            rec.add('RoundTrip', props, nt=True, label='decoded-then-changed', **actions.roundtrip(g, 1))
+    if values:
+        for t in (xdeath, {'b': 1, 'd': 2}, {'k': {'b': 1, 'y': 2}, 'l': [{'m': 1, 'x': 2}]}):
+            try:
+                n_, w = _dec.field_table(_enc.field_table(t))
+            except Exception:  # noqa
+                continue
+            rec.add('EncodeValue', props, nt=True, label='decoded-unchanged', **actions.encode_value(w, 'table'))
+            poke(w)
+            rec.add('EncodeValue', props, nt=True, label='decoded-then-changed', **actions.encode_value(w, 'table'))
+            rec.add('EncodeValue', props, nt=True, label='decoded-then-changed', **actions.encode_value([w], 'array'))
+
+
+def marshal_failure_then(ctx, props, action='RoundTrip'):
+    """a marshal call that is REFUSED (each kind of frame, each kind of refusal, raised at different depths of the encoder)
+    immediately followed by valid frames of every kind: whatever the refused call left behind (a scratch buffer, a
+    half-filled memo, a counter) shows in the frames that follow"""
+    from pamqp import body, commands, frame, header, heartbeat
+    rec, rng = ctx.rec, ctx.rng
+    refused = [lambda: frame.marshal(body.ContentBody('text'), 5), lambda: frame.marshal(body.ContentBody(12345), 5),
+               lambda: frame.marshal(commands.Basic.Publish(exchange='ex', routing_key=b'rk'), 3),
+               lambda: frame.marshal(commands.Queue.Declare(queue='q', arguments={'a': 1, 'k': object()}), 3),
+               lambda: frame.marshal(commands.Basic.Qos(prefetch_count=-1), 2),
+               lambda: frame.marshal(commands.Exchange.Bind(destination='d', source='s', routing_key=None), 2),
+               lambda: frame.marshal(header.ContentHeader(0, 1, commands.Basic.Properties(content_type='t', headers={'a': 1, 'k': 1 << 70})), 4),
+               lambda: frame.marshal(header.ContentHeader(0, -1, commands.Basic.Properties(priority=1)), 4),
+               lambda: frame.marshal(commands.Basic.Ack(delivery_tag=1), 70000), lambda: frame.marshal(object(), 1),
+               lambda: frame.marshal(header.ProtocolHeader(0, 9, 300), 0)]
+    for bad in refused:
+        try:
+            with __import__('observers').wall():
+                bad()
+        except BaseException as e_:  # noqa
+            if isinstance(e_, (KeyboardInterrupt, SystemExit, __import__('observers').GiveUp)):
+                raise
+        followers = [framegen.rand_method(rng), commands.Basic.Publish(exchange='e', routing_key='rk', mandatory=True),
+                     commands.Exchange.Bind(destination='d', source='s', routing_key='k', nowait=True, arguments={'z': 1}),
+                     header.ContentHeader(0, 10, commands.Basic.Properties(content_type='t', priority=3)), body.ContentBody(b'payload\xce'),
+                     heartbeat.Heartbeat(), commands.Queue.Declare(queue='q2', durable=True, arguments={'x': 2})]
+        for fr in followers:
+            if action == 'Peek':
+                ev = actions.peek(fr, 7, b'')
+                if ev is not None:
+                    rec.add('Peek', props, nt=True, label='after-refused-marshal', **ev)
+            else:
+                rec.add('RoundTrip', props, nt=True, label='after-refused-marshal', **actions.roundtrip(fr, 7))
 
 
 def unrepresentable_strings(ctx, props):
